@@ -48,6 +48,7 @@ from src.core.registry import RuleRegistry
 from src.core.types import Violation
 from src.linter_config.ignore import get_ignore_parser
 from src.linter_config.loader import LinterConfigLoader
+from src.linter_config.pattern_utils import matches_ignore_pattern
 
 from .language_detector import detect_language
 
@@ -91,6 +92,12 @@ _HARDCODED_EXCLUDE_DIRS: frozenset[str] = frozenset(
         "htmlcov",
     }
 )
+
+
+# Config sections whose name differs from the prefix of the rule ids they govern
+_LINTER_SECTION_ALIASES: dict[str, tuple[str, ...]] = {
+    "improper-logging": ("improper-logging", "print-statements"),
+}
 
 
 def _is_hardcoded_excluded(file_path: Path) -> bool:
@@ -323,7 +330,7 @@ class Orchestrator:  # thailint: ignore[srp]
 
         # Call finalize() on all rules after processing all files
         for rule in self.registry.list_all():
-            violations.extend(rule.finalize())
+            violations.extend(self._drop_linter_ignored(rule.finalize()))
 
         return violations
 
@@ -354,12 +361,39 @@ class Orchestrator:  # thailint: ignore[srp]
         """
         if not violations or rule.rule_id.startswith("lazy-ignores"):
             return violations
+        if context.file_path is not None and self._linter_ignores_file(
+            rule.rule_id, context.file_path
+        ):
+            return []
         content = context.file_content
         if content is None:
             return violations
         return [
             v for v in violations if not self.ignore_parser.should_ignore_violation(v, content)
         ]
+
+    def _drop_linter_ignored(self, violations: list[Violation]) -> list[Violation]:
+        """Apply per-linter ignore lists to cross-file findings produced by finalize()."""
+        return [
+            v for v in violations if not self._linter_ignores_file(v.rule_id, Path(v.file_path))
+        ]
+
+    def _linter_ignores_file(self, rule_id: str, file_path: Path) -> bool:
+        """Check the ``ignore`` list of the rule's config section (supported by every linter)."""
+        prefix = rule_id.split(".", maxsplit=1)[0]
+        names = _LINTER_SECTION_ALIASES.get(prefix, (prefix,))
+        keys = [name.replace("-", "_") for name in names] + list(names)
+        sections = (self.config.get(key) for key in keys)
+        patterns = [
+            str(pattern)
+            for section in sections
+            if isinstance(section, dict) and isinstance(section.get("ignore"), list)
+            for pattern in section["ignore"]
+        ]
+        if not patterns:
+            return False
+        relative = str(self._path_in_project(file_path))
+        return any(matches_ignore_pattern(relative, pattern) for pattern in patterns)
 
     def _safe_check_rule(self, rule: BaseLintRule, context: BaseLintContext) -> list[Violation]:
         """Safely check a rule, returning empty list on error."""
@@ -391,7 +425,7 @@ class Orchestrator:  # thailint: ignore[srp]
 
         # Call finalize() on all rules after processing all files
         for rule in self.registry.list_all():
-            violations.extend(rule.finalize())
+            violations.extend(self._drop_linter_ignored(rule.finalize()))
 
         return violations
 
